@@ -223,7 +223,7 @@ Section Meaning.
   Definition date_value (args : list (list ast)) : str :=
     let fmt := match args with f :: _ => text_of_arg f | [] => (LIT "%+") end in
     let zone := match args with
-                | [_; [ALit z]] => if str_eqb z (LIT "utc") then Utc else Local
+                | [_; z] => if str_eqb (text_of_arg z) (LIT "utc") then Utc else Local
                 | _ => Local
                 end in
     time_str fmt zone.
@@ -263,29 +263,18 @@ Section Meaning.
     match args with
     | [] => fmt_ok (LIT "%+")
     | [f] => plain f && fmt_ok (text_of_arg f)
-    | [f; [ALit z]] =>
-      plain f && fmt_ok (text_of_arg f) && (str_eqb z (LIT "utc") || str_eqb z (LIT "local"))
+    | [f; z] =>
+      plain f && fmt_ok (text_of_arg f) && plain z && negb (is_nil z)
+      && (str_eqb (text_of_arg z) (LIT "utc") || str_eqb (text_of_arg z) (LIT "local"))
     | _ => false
     end.
 
-  (* MDC arguments of the positive theorem: exactly one text piece each *)
+  (* MDC arguments: a non-empty literal key and, if given, a non-empty literal default
+     (any number of text and escape pieces: the whole argument counts, fix c13258d) *)
   Definition mdc_args_ok (args : list (list ast)) : bool :=
     match args with
-    | [k] => single k
-    | [k; d] => single k && single d
-    | _ => false
-    end.
-
-  (* the open finding F-C09-mdc-first-piece: literal MDC arguments made of
-     more than one piece (only the first piece is used by the code).  An EMPTY
-     key/default argument is rejected by the code with a visible error
-     ({ERROR: invalid MDC key}); it is neither well-formed for the positive
-     theorem nor in the finding class. *)
-  Definition mdc_first_piece_class (args : list (list ast)) : bool :=
-    match args with
-    | [k] => plain k && negb (is_nil k) && negb (single k)
+    | [k] => plain k && negb (is_nil k)
     | [k; d] => plain k && plain d && negb (is_nil k) && negb (is_nil d)
-                && negb (single k && single d)
     | _ => false
     end.
 
@@ -306,38 +295,6 @@ Section Meaning.
        else false)
     end.
 
-  (* same, but MDC formatters may also be in the known-finding class; says
-     whether one was met *)
-  Fixpoint in_known_class (a : ast) : bool :=
-    match a with
-    | ALit _ => false
-    | AEsc _ _ => false
-    | AFmt nm args sp =>
-      if group_name nm then
-        match args with
-        | [arg] => existsb in_known_class arg
-        | _ => false
-        end
-      else if is_name nm (LIT "X") (LIT "mdc") then mdc_first_piece_class args
-      else false
-    end.
-
-  Fixpoint sem_ok_mod_class (a : ast) : bool :=
-    match a with
-    | ALit _ => true
-    | AEsc _ _ => true
-    | AFmt nm args sp =>
-      widths_ok sp &&
-      (if leaf_name nm then is_nil args
-       else if group_name nm then
-         match args with
-         | [arg] => forallb sem_ok_mod_class arg
-         | _ => false
-         end
-       else if is_name nm (LIT "d") (LIT "date") then date_args_ok args
-       else if is_name nm (LIT "X") (LIT "mdc") then mdc_args_ok args || mdc_first_piece_class args
-       else false)
-    end.
 End Meaning.
 
 (* highlight groups replaced by plain groups *)
@@ -351,36 +308,3 @@ Fixpoint unhighlight (a : ast) : ast :=
 
 Definition strip (l : list item) : list item :=
   filter (fun i => match i with St _ => false | _ => true end) l.
-
-(* ---------- C11: the open finding F-C11-tz-first-piece ---------- *)
-(* a date formatter that compiles (arity and format fine) whose zone argument
-   has several pieces, the first being the text utc/local: the code looks at
-   the first piece only and accepts it *)
-Definition tz_arg_class (arg : list piece) : bool :=
-  match arg with
-  | PText z :: _ :: _ => str_eqb z (LIT "utc") || str_eqb z (LIT "local")
-  | _ => false
-  end.
-
-Section TzClass.
-  Variable strftime_ok : str -> bool.
-
-  Definition tz_date_class (args : list (list piece)) : bool :=
-    negb (Nat.ltb 2 (length args)) &&
-    strftime_ok (match args with a :: _ => date_format_of a | [] => (LIT "%+") end) &&
-    match nth_error args 1 with Some a => tz_arg_class a | None => false end.
-
-  (* reached by compile: top level or through groups with exactly one argument *)
-  Fixpoint tz_class (p : piece) : bool :=
-    match p with
-    | PArg nm args _ =>
-      if one_of nm (LIT "d") (LIT "date") then tz_date_class args
-      else if group_name nm then
-        match args with
-        | [arg] => existsb tz_class arg
-        | _ => false
-        end
-      else false
-    | _ => false
-    end.
-End TzClass.
